@@ -15,6 +15,7 @@ import (
 
 func main() {
 	r := vlib.Start("C02", "exploration")
+	r.ScaleQuick(4) // quick tier: 4x the case counts written at the sections (still well under a minute)
 	r.Rule("seeded deterministic solids (own CSG trees of own primitives, thin slabs/needles near one spacing, surfaces within 1e-9 of lattice points, lattice bitmaps) x spacings x iteration counts x dual-contouring options; each case meshes one solid and checks sample side (winding number at lattice points), vertex placement per lattice edge, refinement bracket, interior points, and for clipped dual contouring the per-edge crossing count and sign; non-trivial = mesh has >= 8 faces; distinct by solid description + options")
 	r.Assume("lattice coordinates come from the library through VerifMarchingLattice / VerifDcLattice")
 	r.Assume("exact integer winding on dyadic cases; solid-angle winding (decided only when within 0.01 of an integer) otherwise")
